@@ -6,13 +6,13 @@ import RaftGen.Props.C15PipeSys
 namespace Raft.C15Pipe
 open Raft.Chan
 
-/-- one exploration of `pipeSys`: `inv` everywhere -/
+/-- one exploration of `pipeSys` (2815 states): `inv` everywhere -/
 theorem pipeSys_explored : ∀ s, Reachable pipeSys s → inv s = true :=
-  checkAll_sound (fuel := 3000) (by decide +kernel)
+  checkAll_sound (fuel := 3500) (by decide +kernel)
 
-/-- one exploration of `pipeSysP`: every panicked state has the writer just after the send of its deferred function -/
+/-- one exploration of `pipeSysP` (2503 states): every panicked state has the writer just after the send of its deferred function -/
 theorem pipeSysP_explored :
     ∀ s, Reachable pipeSysP s → (noPanic s || memNat (s.pc writer) Gen.pipeWriterP_at_recoverSend) = true :=
-  checkAll_sound (fuel := 3000) (by decide +kernel)
+  checkAll_sound (fuel := 3500) (by decide +kernel)
 
 end Raft.C15Pipe
